@@ -481,6 +481,27 @@ func (codecComp) Gen(r *Rand, tier string, emit func(op string)) {
 		}
 	}
 
+	// (ii-b) "several thousand bytes": sparse long lengths beyond the dense range, in both tiers — around the powers of
+	// two, the round thousands, the largest fragment the tunnel negotiates (8192) and random ones.  Any cap, scratch
+	// buffer or 16-bit counter sized for "typical" DNS payloads shows at the long end.
+	long := []int{1023, 1024, 1025, 2047, 2048, 2049, 3000, 4095, 4096, 4097, 5000, 6000, 7000, 8191, 8192, 8193, 9000}
+	nrand := 6
+	if thorough {
+		nrand = 40
+	}
+	for i := 0; i < nrand; i++ {
+		long = append(long, maxLen+1+r.Intn(9000-maxLen))
+	}
+	for _, n := range long {
+		if n <= maxLen {
+			continue
+		}
+		for ci, c := range codecLetters {
+			encOp(c, content(5, n))
+			encOp(c, content((n+ci)%kinds, n))
+		}
+	}
+
 	// (iii) Decode on arbitrary strings
 	alph := map[byte][]byte{}
 	for _, c := range codecLetters {
